@@ -55,6 +55,12 @@ EXPLANATION = (
     "stored. Which ancestor is consulted first and when augmentation "
     "stops are runtime-set algorithms and are not decided.")
 
+EXPLANATION += (
+    ' Added after the seeded rounds: the in-place patching loop visits '
+    'parents deepest first; the unknown-to-reference test uses the '
+    'unfiltered marker table.'
+)
+
 RULE_TEXT = (
     "one obligation per cache-path argument, per indexed comprehension, "
     "per cache dataset, per log conditional, per error condition, per "
